@@ -63,6 +63,8 @@ func kindOf(s string) faultKind {
 		return faultTimeout
 	case "reset":
 		return faultReset
+	case "longerr":
+		return faultLongErr
 	}
 	return faultErr
 }
@@ -170,12 +172,38 @@ func runSession(endpoint string, plan *faultPlan, compress bool) (verdict string
 		if err := conn.WriteMessage(gws.OpcodeText, []byte("late")); err == nil || retClass(err) != "closed" {
 			problems = append(problems, name+"-late-write-not-rejected:"+retClass(err))
 		}
-		if len(t.Tap()) != before {
-			problems = append(problems, name+"-late-write-touched-wire")
+		// every other write API on the finished connection: the closed-connection error, and nothing reaches the transport
+		calls0 := t.WriteAttempts()
+		lateDone := make(chan []string, 1)
+		go func() { lateDone <- lateWrites(name, conn, t, before, calls0) }()
+		select {
+		case ps := <-lateDone:
+			problems = append(problems, ps...)
+		case <-time.After(5 * time.Second):
+			problems = append(problems, name+"-late-write-blocks-forever")
 		}
 	}
 	check("server", sh, s, sc)
 	check("client", ch, c, cc)
+	for name, t := range map[string]*memConn{"server": sc, "client": cc} {
+		tap := t.Tap()
+		if i := bytes.Index(tap, []byte("\r\n\r\n")); i >= 0 {
+			tap = tap[i+4:]
+		}
+		fs, _ := decodeFrames(tap) // a partial last frame (the injected short write) ends the list
+		closes := 0
+		for _, f := range fs {
+			if f.opcode >= 8 && (len(f.payload) > 125 || !f.fin || f.lenForm != 7) {
+				problems = append(problems, fmt.Sprintf("%s-sent-malformed-control-frame(opcode=%d,len=%d)", name, f.opcode, len(f.payload)))
+			}
+			if f.opcode == 8 {
+				closes++
+			}
+		}
+		if closes > 1 {
+			problems = append(problems, name+"-sent-two-close-frames")
+		}
+	}
 	_ = tconn
 	if n, first := settle(2 * time.Second); n > 0 {
 		problems = append(problems, fmt.Sprintf("goroutines-left=%d[%s]", n, first))
@@ -184,6 +212,40 @@ func runSession(endpoint string, plan *faultPlan, compress bool) (verdict string
 		return strings.Join(problems, ","), ops
 	}
 	return "teardown-ok", ops
+}
+
+// lateWrites calls every write API on a finished connection: each must return the closed-connection error and
+// nothing may reach the transport.
+func lateWrites(name string, conn *gws.Conn, t *memConn, before, calls0 int) []string {
+	var problems []string
+	late := map[string]error{
+		"ping":   conn.WritePing([]byte("p")),
+		"pong":   conn.WritePong(nil),
+		"string": conn.WriteString("late"),
+		"v":      conn.Writev(gws.OpcodeBinary, []byte("la"), []byte("te")),
+		"file":   conn.WriteFile(gws.OpcodeBinary, bytes.NewReader([]byte("late file"))),
+		"close":  conn.WriteClose(1000, nil),
+	}
+	ad := make(chan error, 1)
+	conn.WriteAsync(gws.OpcodeText, []byte("late"), func(e error) { ad <- e })
+	select {
+	case late["async"] = <-ad:
+	case <-time.After(3 * time.Second):
+		problems = append(problems, name+"-late-async-callback-missing")
+	}
+	for _, api := range []string{"async", "close", "file", "ping", "pong", "string", "v"} {
+		if e, ok := late[api]; ok && retClass(e) != "closed" {
+			problems = append(problems, name+"-late-"+api+"-not-rejected:"+retClass(e))
+		}
+	}
+	b := gws.NewBroadcaster(gws.OpcodeText, []byte("late"))
+	_ = b.Broadcast(conn)
+	drainAsync(conn)
+	_ = b.Close()
+	if len(t.Tap()) != before || t.WriteAttempts() != calls0 {
+		problems = append(problems, name+"-late-write-touched-wire")
+	}
+	return problems
 }
 
 func execFaults(args []string) string {
@@ -451,6 +513,128 @@ func execFaults(args []string) string {
 			return "streamed-message-not-finished"
 		}
 		return "contiguous"
+	case "deadline-stall": // faults deadline-stall <s|c>: the application has set a write deadline, the peer stops reading: the failing write ends in a complete teardown
+		sh := newRecorder()
+		var conn *gws.Conn
+		var local *memConn
+		var err error
+		if args[1] == "s" {
+			conn, local, _, err = serverConnRaw(&gws.ServerOption{}, sh, "")
+		} else {
+			conn, local, _, err = clientConnRaw(&gws.ClientOption{}, sh, "", nil)
+		}
+		if err != nil {
+			return "handshake-failed"
+		}
+		loopDone := make(chan struct{})
+		go func() { conn.ReadLoop(); close(loopDone) }()
+		local.Stall()
+		_ = conn.SetWriteDeadline(time.Now().Add(80 * time.Millisecond))
+		wdone := make(chan error, 1)
+		go func() { wdone <- conn.WriteMessage(gws.OpcodeText, bytes.Repeat([]byte("x"), 2000)) }()
+		v := ""
+		select {
+		case e := <-wdone:
+			if e == nil {
+				v = "write-into-a-stalled-peer-succeeded"
+			}
+		case <-time.After(3 * time.Second):
+			v = "write-did-not-return-at-its-deadline"
+		}
+		if v == "" {
+			select {
+			case <-loopDone:
+				if !local.IsClosed() {
+					v = "transport-open"
+				} else if !sh.WaitClosed(time.Second) {
+					v = "close-callback-missing"
+				} else {
+					v = "teardown-ok"
+				}
+			case <-time.After(3 * time.Second):
+				v = "readloop-did-not-return"
+			}
+		}
+		local.Unstall()
+		_ = local.Close()
+		select {
+		case <-loopDone:
+		case <-time.After(3 * time.Second):
+		}
+		settle(2 * time.Second)
+		return v
+	case "file-fault": // faults file-fault <s|c> <compress> <k>: the k-th transport write of a streamed send fails; later writes of every kind are rejected, none blocks
+		sh := newRecorder()
+		pd := gws.PermessageDeflate{}
+		ext := ""
+		if args[2] == "1" {
+			pd = gws.PermessageDeflate{Enabled: true, ServerContextTakeover: true, ClientContextTakeover: true}
+			ext = "permessage-deflate"
+		}
+		var conn *gws.Conn
+		var local *memConn
+		var err error
+		if args[1] == "s" {
+			conn, local, _, err = serverConnRaw(&gws.ServerOption{PermessageDeflate: pd}, sh, ext)
+		} else {
+			conn, local, _, err = clientConnRaw(&gws.ClientOption{PermessageDeflate: pd}, sh, ext, nil)
+		}
+		if err != nil {
+			return "handshake-failed"
+		}
+		k, _ := strconv.Atoi(args[3])
+		loopDone := make(chan struct{})
+		go func() { conn.ReadLoop(); close(loopDone) }()
+		local.SetPlan(planFor("w", k, "err"))
+		rnd := NewRand(uint64(k) + 11)
+		var chunks [][]byte
+		for i := 0; i < 5; i++ {
+			chunks = append(chunks, rnd.Bytes(100*1024))
+		}
+		e1 := conn.WriteFile(gws.OpcodeBinary, &scriptedReader{chunks: chunks})
+		if !local.PlanFired() {
+			_ = local.Close()
+			<-loopDone
+			return "teardown-ok\tfault-not-reached"
+		}
+		if e1 == nil {
+			return "streamed-send-reported-success-although-a-write-failed"
+		}
+		res := make(chan string, 1)
+		go func() {
+			var bad []string
+			if e := conn.WriteFile(gws.OpcodeBinary, bytes.NewReader([]byte("again"))); retClass(e) != "closed" {
+				bad = append(bad, "file:"+retClass(e))
+			}
+			if e := conn.WriteMessage(gws.OpcodeText, []byte("again")); retClass(e) != "closed" {
+				bad = append(bad, "msg:"+retClass(e))
+			}
+			b := gws.NewBroadcaster(gws.OpcodeBinary, rnd.Bytes(900))
+			_ = b.Broadcast(conn)
+			drainAsync(conn)
+			_ = b.Close()
+			if len(bad) > 0 {
+				res <- "later-writes-not-rejected:" + strings.Join(bad, ",")
+			} else {
+				res <- "teardown-ok"
+			}
+		}()
+		v := ""
+		select {
+		case v = <-res:
+		case <-time.After(4 * time.Second):
+			return "later-write-blocks-forever"
+		}
+		select {
+		case <-loopDone:
+		case <-time.After(3 * time.Second):
+			v = "readloop-did-not-return"
+		}
+		if v == "teardown-ok" && !local.IsClosed() {
+			v = "transport-open"
+		}
+		settle(2 * time.Second)
+		return v
 	case "stall-readloop": // the Close frame of a local close is stalled in the transport (holding the write lock) and the read side fails: the read loop still returns
 		sh := newRecorder()
 		pd := gws.PermessageDeflate{Enabled: true, ServerContextTakeover: true, ClientContextTakeover: true}
@@ -566,19 +750,28 @@ func genFaults(g *Gen) {
 	for _, ep := range []string{"s", "c"} {
 		for _, comp := range []string{"0", "1"} {
 			g.Emit("faults session-clean %s %s", ep, comp)
-			_, ops := runSession(ep, nil, comp == "1")
+			ops := [2]int{40, 40} // used if the counting run below does not come back (it runs in this process)
+			cnt := make(chan [2]int, 1)
+			go func() { _, o := runSession(ep, nil, comp == "1"); cnt <- o }()
+			select {
+			case ops = <-cnt:
+			case <-time.After(20 * time.Second):
+			}
 			kinds := []string{"err", "short", "eof"}
 			stepR, stepW := 1, 1
 			if !g.Thorough() {
 				stepR = 1 + ops[0]/12
 			}
-			for k := 0; k < ops[0]; k += stepR {
-				for _, kind := range []string{"err", "eof", []string{"timeout", "reset"}[k%2]} {
+			for k, it := 0, 0; k < ops[0]; k, it = k+stepR, it+1 {
+				for _, kind := range []string{"err", "eof", []string{"timeout", "reset", "longerr"}[it%3]} {
 					g.Emit("faults session %s r %d %s %s", ep, k, kind, comp)
 				}
 			}
+			for k := 0; k < 4 && k < ops[0]; k++ { // an error text too long for a control frame, at the first reads (always reached)
+				g.Emit("faults session %s r %d longerr %s", ep, k, comp)
+			}
 			for k := 0; k < ops[1]; k += stepW {
-				for _, kind := range append(kinds, []string{"timeout", "reset"}[k%2]) {
+				for _, kind := range append(kinds, []string{"timeout", "reset", "longerr"}[k%3]) {
 					if kind == "eof" {
 						continue
 					}
@@ -620,4 +813,12 @@ func genFaults(g *Gen) {
 	g.Emit("faults hs-client-stall")
 	g.Emit("faults stall-close")
 	g.Emit("faults stall-readloop")
+	for _, role := range []string{"s", "c"} {
+		g.Emit("faults deadline-stall %s", role)
+		for _, comp := range []string{"0", "1"} {
+			for k := 0; k < 5; k++ {
+				g.Emit("faults file-fault %s %s %d", role, comp, k)
+			}
+		}
+	}
 }
